@@ -141,8 +141,12 @@ def body(case, ctx, tmp):
     lg = Logger(plg, logger_fn=logfn, msg_gen=(lambda s, e, **k: f"E={e};k={sorted(k.items())}") if use_gen else None, note="n1")
     cbs = [rec, ev1, ev2, evo, saver, lg]
 
+    cform = trainrec.CONTAINER_FORMS[i % len(trainrec.CONTAINER_FORMS)]
+    ctx.seen("callback_container_forms", cform)
+
     def run(s, e):
-        ctx.lib("fit", st.fit, data, epochs=e, starting_epoch=s, pos_batch_size=3, lr=0.05, callbacks=cbs, tags=tags, **kw)
+        ctx.lib("fit", st.fit, data, epochs=e, starting_epoch=s, pos_batch_size=3, lr=0.05, callbacks=trainrec.as_container(cbs, cform),
+                time=bool(i % 2), tags=dict(tags, callbacks_as=cform), **kw)
         ctx.count("fits")
 
     run(start, epochs)
